@@ -31,5 +31,9 @@ func Region(name string, c bool) {}
 
 func Assert(c bool, label string) {}
 
+// HavocState fills the value pointed to by ptr (structs / arrays / bools / integers) with fresh symbolic leaves
+// named name.Field[i]... ; natively the leaves are read from the replay file under the same names.
+func HavocState(ptr interface{}, name string) {}
+
 // Symbolic reports whether the harness is being executed by the engine (true) or natively (false).
 func Symbolic() bool { return true }
